@@ -209,6 +209,10 @@ def tnot(b):
     if isinstance(b, tuple) and b[0] == 'le0':
         # not (a <= 0)  <=>  a >= 1  <=>  1 - a <= 0
         return le0(sub(const(1), b[1]))
+    if isinstance(b, tuple) and b[0] == 'and':
+        return tor(*[tnot(x) for x in b[1]])
+    if isinstance(b, tuple) and b[0] == 'or':
+        return tand(*[tnot(x) for x in b[1]])
     return ('not', b)
 
 
